@@ -14,7 +14,7 @@ ORACLES = ("C11.",)
 RULE = (
     "C01's programs extended with 1-3 ill-formed entry points: 2-4 kept paths over a small segment alphabet (a, b, ab, c) "
     "of which one is a strict prefix of another, in seeded order, adjacent or separated by unrelated paths, at different "
-    "nesting depths; call cycles of length 1-4 through plain calls, keeps and higher-order references; dds.eval nested "
+    "nesting depths; call cycles of length 1-4 through plain calls, keeps, higher-order references and methods; dds.eval nested "
     "0-2 calls deep. They are evaluated (dds.eval or direct data-function call) at seeded positions of an otherwise "
     "valid history (populated store, same process as the valid evaluations, before / after edits and restarts). "
     "Oracles: DDSException with the corresponding error code, empty execution log, store snapshot unchanged, and the "
@@ -23,8 +23,9 @@ RULE = (
     "compared operation; distinct = run digests."
 )
 COMPONENTS = c01.COMPONENTS
-ASSUMPTIONS = c01.ASSUMPTIONS + ["cycles through methods are not generated (the IR has no classes yet)"]
+ASSUMPTIONS = c01.ASSUMPTIONS
 PROBES = ["overlap", "overlap_separated", "overlap_long_first", "cycle", "cycle_len>=3", "cycle_through_keep_or_ho",
+          "cycle_through_method",
           "evalineval", "evalineval_nested", "ill_on_populated_store", "twin_ops_compared"]
 
 PROFILE = {
@@ -100,6 +101,8 @@ def run_case(case):
                         probe("cycle_len>=3")
                     if any(it["t"] in ("keep", "ho") for fn in cyc for it in prog["funcs"][fn]["body"]):
                         probe("cycle_through_keep_or_ho")
+                    if any(fn.startswith(o["entry"][:-1] + "k") for fn in prog["funcs"]):
+                        probe("cycle_through_method")
                 if kind == "evalineval" and any(fn.startswith(o["entry"][:-1] + "h") for fn in prog["funcs"]):
                     probe("evalineval_nested")
             if o["snap_before"]["blobs"]:
